@@ -351,6 +351,12 @@ def main(run_fn, prop, level):
     try:
         run_fn(c)
     except Inconclusive as e:
+        if c.violations:
+            # violations already established on the real code (each with its replay file) stand; what could not
+            # be completed afterwards (typically a negative control that finds no accepted case left to corrupt,
+            # because the code under test fails everywhere) is reported with them
+            c.note("a later stage of the check was inconclusive: %s" % str(e)[:1500])
+            sys.exit(c.finish())
         print("INCONCLUSIVE property=%s %s" % (prop, str(e)[:3000]))
         sys.exit(2)
     except Exception:   # a failure of the machinery is never a verdict about the code
